@@ -359,6 +359,27 @@ Theorem C14_src_bwd_nearest_outcome : forall cfg r t l t0 k, pos_rows l ->
                   (Z.of_nat (h_near cfg)) <> Crash k.
 Proof. exact src_bwd_nearest_outcome. Qed.
 
+(* ---- source-text tie for the recursive pass (gen/SrcPass.v: ForwardScheduler.__forward_pass / BackwardScheduler.__backward_pass translated from schedule.py on every run;
+   Sched/SrcPassEquivF.v / SrcPassEquivB.v relates it to the model's pass for every input, Sched/SrcPassProps.v transports the theorems):
+   what follows is about the TRANSLATED SOURCE called once per root as calc does ([src_roots_fold]) after calc's pre-checks. ---- *)
+From PJ Require Import gen.SrcPass Sched.SrcPassRel Sched.SrcPassEquivF Sched.SrcPassEquivB Sched.SrcPassProps.
+
+Theorem C14_src_forward_pass_total : forall cfg w, WFin w -> isolated_ok w = true -> no_future_ends w (now cfg) = true ->
+  (exists x, src_roots_fold src_fwd_pass cfg w (roots w) = Ok x) \/ src_roots_fold src_fwd_pass cfg w (roots w) = Err.
+Proof. exact src_fwd_total. Qed.
+
+Theorem C14_src_backward_pass_total : forall cfg w, WFin w -> isolated_ok w = true ->
+  (exists x, src_roots_fold src_bwd_pass cfg w (rev (roots w)) = Ok x) \/ src_roots_fold src_bwd_pass cfg w (rev (roots w)) = Err.
+Proof. exact src_bwd_total. Qed.
+
+Theorem C14_src_forward_pass_outcome : forall cfg w, isolated_ok w = true -> no_future_ends w (now cfg) = true ->
+  outcome_code (src_roots_fold src_fwd_pass cfg w (roots w)) = outcome_code (forward cfg w).
+Proof. exact src_forward_outcome. Qed.
+
+Theorem C14_src_backward_pass_outcome : forall cfg w, isolated_ok w = true ->
+  outcome_code (src_roots_fold src_bwd_pass cfg w (rev (roots w))) = outcome_code (backward cfg w).
+Proof. exact src_backward_outcome. Qed.
+
 Print Assumptions C14_total_forward.
 Print Assumptions C14_total_backward.
 Print Assumptions C14_compute_no_crash.
@@ -389,3 +410,7 @@ Print Assumptions C14_src_fwd_shift_outcome.
 Print Assumptions C14_src_bwd_shift_outcome.
 Print Assumptions C14_src_fwd_nearest_outcome.
 Print Assumptions C14_src_bwd_nearest_outcome.
+Print Assumptions C14_src_forward_pass_total.
+Print Assumptions C14_src_backward_pass_total.
+Print Assumptions C14_src_forward_pass_outcome.
+Print Assumptions C14_src_backward_pass_outcome.
